@@ -309,7 +309,7 @@ func (g *gen) intExpr(k Kind, depth int) Expr {
 		if g.inConst == 0 && len(g.inputs) > 0 && g.f.off("dot.int.typed-let-splat") {
 			// (known finding C04-8, MSL: integer dot of a typed let bound to a splat constructor)
 			for i, a := range b.Args {
-				if vr, ok := a.(*VarRef); ok && vr.V.Kind == VLet && !vr.V.NoType {
+				if vr, ok := a.(*VarRef); ok && (vr.V.Kind == VLet || vr.V.Kind == VConst) && !vr.V.NoType {
 					if c, ok := vr.V.Init.(*Construct); ok && len(c.Args) == 1 && c.Args[0].Type() != nil && c.Args[0].Type().K == TScalar {
 						b.Args[i] = g.runtimeOf(Vec(n, k))
 					}
